@@ -6,6 +6,7 @@ import UsualProofs.C04.CMatchFrag
 import UsualProofs.C04.CMatchLink
 import UsualProofs.C04.CMatchLinkG
 import UsualProofs.C04.CMatchRepLink
+import UsualProofs.C04.CMatchSub
 /-! # Property C04 — internal regex: POSIX leftmost-longest matching
 
 Level of this property: **exploration with a proved oracle**.  The theorems below are about the
@@ -333,6 +334,74 @@ theorem match_gend_discipline (B : Nat → Nat → Prop) (N mn mx p m : Nat) (hm
     (hbound : ∀ a b, B a b → b ≤ N) (hmm : mn ≤ mx) (hp : p ≤ N) (unb : Bool) (hunb : unb = true → N < mx) :
     RepC B mn mx p m ↔ ∃ n, mn ≤ n ∧ (unb = false → n ≤ mx) ∧ Iter B n p m :=
   repC_iff hmono hbound hmm hp unb hunb
+
+/-- **The sub-match clause holds for the matcher model** — "reported sub-match offsets are either
+both -1 or ordered, inside the subject and inside the overall match".  For every compiled pattern
+(repeated and nested groups included), every subject, all flags, any `nmatch`, and whatever the
+outcome of the call (even when the model stops at its own fuel/step limit): every entry
+`pmatch[i]`, `i ≥ 1`, is `(-1,-1)` or satisfies `pm[0].so ≤ so ≤ eo ≤ pm[0].eo ≤ |subject|`;
+entries beyond `re_nsub` are `(-1,-1)`; and when the call returns 0 with `pmatch` wanted, `pm[0]`
+itself is an ordered range inside the subject.
+
+Proof (UsualProofs/C04/CMatchSub.lean): an invariant of the exploration, by simultaneous induction
+on the fuel over `do_match / scan_next / back-off loop / match_group (entered and re-entered) /
+OR-list loop / match_gend`.  Every frame on a group stack (`gm_stack[gno]`, linked by `prevgm`)
+starts at or after the start of group #0, and unless it is one of the OPEN frames of the current
+call chain, its `end` (if set) satisfies `start ≤ end ≤ current position`; a call returns with the
+stacks restored and may only have changed `end` of open frames.  Group start recording = frame
+push; group end recording = `match_gend` closing the innermost open frame at the current position;
+reset of inner groups on a new iteration = `publish_gm` dropping a frame whose parent is not the
+published one (it publishes `(-1,-1)`, which satisfies the clause trivially); tie resolution and
+`publish_gm` read only frames on the stacks, at a moment when the only open frame, group #0, has
+just been closed at the current position. -/
+theorem submatch_wellformed (r : Re) (alts : List (List CM.COp)) (nsub : Nat)
+    (hc : CM.compileOps r = some (alts, nsub)) (nosub : Bool) (e : Env) (nmatch budget fuel : Nat) :
+    (∀ i, 1 ≤ i → i < (CM.cExec alts nsub nosub e nmatch budget fuel).pm.length →
+      (CM.cExec alts nsub nosub e nmatch budget fuel).pm[i]! = (-1, -1) ∨
+      ∃ s0 e0 so eo : Nat, (CM.cExec alts nsub nosub e nmatch budget fuel).pm[0]! = ((s0 : Int), (e0 : Int)) ∧
+        (CM.cExec alts nsub nosub e nmatch budget fuel).pm[i]! = ((so : Int), (eo : Int)) ∧
+        s0 ≤ so ∧ so ≤ eo ∧ eo ≤ e0 ∧ e0 ≤ e.s.size) ∧
+    (∀ i, nsub + 1 ≤ i → i < (CM.cExec alts nsub nosub e nmatch budget fuel).pm.length →
+      (CM.cExec alts nsub nosub e nmatch budget fuel).pm[i]! = (-1, -1)) ∧
+    ((CM.cExec alts nsub nosub e nmatch budget fuel).rc = 0 → nosub = false → 0 < nmatch →
+      ∃ s0 e0 : Nat, (CM.cExec alts nsub nosub e nmatch budget fuel).pm[0]! = ((s0 : Int), (e0 : Int)) ∧
+        s0 ≤ e0 ∧ e0 ≤ e.s.size) := by
+  have hwf := (CM.compR_wfg r 1 1 0 alts nsub hc).2
+  obtain ⟨h1, h2, h3⟩ := CM.cExec_pmWF alts hwf nsub nosub e nmatch budget fuel
+  refine ⟨h1, h2, ?_⟩
+  intro hrc hns hnm
+  refine h3 ?_ hns hnm
+  have hg : (CM.cExec alts nsub nosub e nmatch budget fuel).rc ≠ CM.OUT_OF_BUDGET ∧
+      (CM.cExec alts nsub nosub e nmatch budget fuel).rc ≠ CM.OUT_OF_FUEL := by
+    rw [hrc]; exact ⟨by decide, by decide⟩
+  rcases CM.cExec_specR alts hwf nsub nosub e nmatch budget fuel hg with ⟨_, hll, _⟩ | ⟨r1, _⟩
+  · obtain ⟨le, hle, _⟩ := hll.longest (by simp [hns, hnm])
+    rw [hle]; rfl
+  · rw [hrc] at r1; exact absurd r1 (by decide)
+
+/-- the same as the Boolean predicate `pmatchOk` that the check applies to the output of the C
+code: a successful call of the model with `pmatch` wanted always satisfies the monitored clause -/
+theorem submatch_clause_holds (r : Re) (alts : List (List CM.COp)) (nsub : Nat)
+    (hc : CM.compileOps r = some (alts, nsub)) (e : Env) (nmatch budget fuel : Nat) (hnm : 0 < nmatch)
+    (hrc : (CM.cExec alts nsub false e nmatch budget fuel).rc = 0) :
+    pmatchOk e.s.size nsub (CM.cExec alts nsub false e nmatch budget fuel).pm = true := by
+  obtain ⟨h1, h2, h3⟩ := submatch_wellformed r alts nsub hc false e nmatch budget fuel
+  exact CM.pmatchOk_of_entries _ _ _ (h3 hrc rfl hnm) h1 h2
+
+/-- non-vacuity: `(a(b)?)*` on "aba" — a repeated group with a nested optional group.  The inner
+group matches `b` in the first iteration and does not take part in the second one: the model (and
+the C code) report `(0,3)(2,3)(-1,-1)`, the inner group is reset to `(-1,-1)`; the entry past
+`re_nsub` stays unset; `pmatchOk` accepts the result. -/
+example :
+    let r : Re := .rep (.group (.cat (.chr 97) (.rep (.group (.chr 98)) 0 (some 1)))) 0 none
+    (match CM.compileOps r with
+      | some (alts, n) => decide (n = 2 ∧ (CM.cExec alts n false { s := #[97, 98, 97] } 4 5000 1000).rc = 0 ∧
+          (CM.cExec alts n false { s := #[97, 98, 97] } 4 5000 1000).pm = [(0, 3), (2, 3), (-1, -1), (-1, -1)] ∧
+          pmatchOk 3 n (CM.cExec alts n false { s := #[97, 98, 97] } 4 5000 1000).pm = true ∧
+          -- after the first iteration alone the inner group is set: "ab" gives (0,2)(0,2)(1,2)
+          (CM.cExec alts n false { s := #[97, 98] } 3 5000 1000).pm = [(0, 2), (0, 2), (1, 2)])
+      | none => false) = true := by
+  decide +kernel
 
 /-- `(a|^){2}b` on "ab" (a repeated group whose second iteration is empty-then-non-empty, the F25
 case): it compiles, and the model reports `(0,2)(0,1)` -/
